@@ -174,6 +174,29 @@ def r1_wire_grammar(ctx):
                         "encode and decode of %s disagree on the byte layout on some path — %s" % (ty.rsplit("::", 1)[-1], " / ".join(what)),
                         work=ne + nd)
     r.note("%d types with both impls; decode-only types: %s" % (len(set(encs) & set(decs)), sorted(x.rsplit("::", 1)[-1] for x in set(decs) - set(encs))))
+    # field-order agreement: position k written from field f must be stored into field f
+    adt_of = {}
+    for i in ws.impls_of(ENC):
+        if i.get("self_adt"):
+            adt_of[i["self_ty"]] = i["self_adt"]
+    for ty in sorted(set(encs) & set(decs)):
+        if ty not in adt_of:
+            continue
+        try:
+            conflicts, annotated, nea, nda = grammar.compare_fields(ws, encs[ty], decs[ty], adt_of[ty])
+        except grammar.TooComplex:
+            continue
+        if not nea or not nda:
+            continue
+        where = cfg.loc(decs[ty].main)
+        if conflicts:
+            pos = conflicts[0][0]
+            r.violation(ty + "|field-order", where,
+                        "encode writes field `%s` at position %d (%s) of %s but decode stores that position into `%s`: two fields are swapped on the wire" % (
+                            pos[2], pos[0], pos[1].replace("N:", "").rsplit("::", 1)[-1], ty.rsplit("::", 1)[-1], pos[3]),
+                        work=annotated)
+        else:
+            r.ok(ty + "|field-order", where, "%d written / %d read positions carry a field; all agree" % (nea, nda), work=annotated)
 
 
 # Variants an encoder has an arm for but no decoder may produce, with the reason.
